@@ -1,5 +1,66 @@
-import XlVerif.Base
-/-! Driver for C07 (stub: replaced when the property's model is built). -/
+import XlVerif.Model.Validate
+import XlVerif.Drv.ValueWire
+/-! Driver for C07.
+  `C07 op <OP> <S> <S>`   → `impl=<result>` (twelve infix operators, POW, CONCAT)
+  `C07 un <NEG|PCT> <S>`  → `impl=<result>`
+  `C07 call <FN> <bound…>` → `impl=<E:CODE|body|X:…|unknown>`: outcome of the wrapper *before* the body;
+      a bound parameter is `o=<py>`, `oa=<A:…>` or `m=<item>|<item>…` (item = py wire or `A:…`)
+  `C07 is <FN> <S>`       → `impl=<result>` (ISERROR ISERR ISNA ISNUMBER ISTEXT ISBLANK)
+-/
 namespace XlVerif.Drv.C07
-def handle (_fields : List String) : String := "error=not-implemented"
+open XlVerif XlVerif.Model.Value XlVerif.Model.Validate XlVerif.Drv.ValueWire
+
+def rowsOf : V → Option (List (List S)) | .arr r => some r | _ => none
+
+def itemOfWire? (w : String) : Option Item :=
+  if w.startsWith "A:" then (V.ofWire? w).bind fun v => (rowsOf v).map Item.arr
+  else (pyOfWire? w).map Item.sc
+
+def pargOfWire? (w : String) : Option PArg :=
+  if w.startsWith "o=" then (itemOfWire? (w.drop 2).toString).map PArg.one
+  else if w.startsWith "oa=" then (itemOfWire? (w.drop 3).toString).map PArg.one
+  else if w.startsWith "m=" then
+    let body := (w.drop 2).toString
+    if body.isEmpty then some (.many []) else ((body.splitOn "|").mapM itemOfWire?).map PArg.many
+  else none
+
+def bw (b : Bool) : String := if b then "B:1" else "B:0"
+
+def handle (fields : List String) : String :=
+  match fields with
+  | ["op", o, a, b] =>
+    (match S.ofWire? a, S.ofWire? b with
+     | some x, some y =>
+       (match o, binopOfWire? o with
+        | _, some op => kv [("impl", OpR.wire (binop Ext.none op x y))]
+        | "POW", _ => kv [("impl", OpR.wire (power Ext.none x y))]
+        | "CONCAT", _ => kv [("impl", OpR.wire (concat Ext.none x y))]
+        | _, _ => "error=bad-op")
+     | _, _ => "error=bad-args")
+  | ["un", o, a] =>
+    (match o, S.ofWire? a with
+     | "NEG", some x => kv [("impl", OpR.wire (neg Ext.none x))]
+     | "PCT", some x => kv [("impl", OpR.wire (percent Ext.none x))]
+     | _, _ => "error=bad-args")
+  | ["is", f, a] =>
+    (match f, S.ofWire? a with
+     | "ISERROR", some x => kv [("impl", bw (ISERROR x))]
+     | "ISERR", some x => kv [("impl", bw (ISERR x))]
+     | "ISNA", some x => kv [("impl", bw (ISNA x))]
+     | "ISNUMBER", some x => kv [("impl", (ISNUMBER x).wire)]
+     | "ISTEXT", some x => kv [("impl", (ISTEXT x).wire)]
+     | "ISBLANK", some x => kv [("impl", (ISBLANK x).wire)]
+     | _, _ => "error=bad-args")
+  | "call" :: fn :: bound =>
+    (match findFunc fn.toList, bound.mapM pargOfWire? with
+     | some f, some args =>
+       if f.validated then
+         (match validateAll Ext.none f.params args with
+          | .ok _ => kv [("impl", "body")]
+          | .xl c => kv [("impl", "E:" ++ c.wire)]
+          | .py k => kv [("impl", "X:" ++ k.wire)])
+       else kv [("impl", "unwrapped")]
+     | none, _ => kv [("impl", "unknown")]
+     | _, none => "error=bad-args")
+  | _ => "error=bad-request"
 end XlVerif.Drv.C07
